@@ -73,8 +73,14 @@ C12LatOK(Lat, E, pre) ==
          /\ Clause(pre \o "bestpath-posterior-le-1", E.post.best <= Eps)
          /\ Clause(pre \o "forward-equals-backward", Abs(E.post.norm - E.post.bwd) <= Eps)
 
+\* before anything walks the graph: what the public iterators delivered IS a graph over the nodes they delivered (a link
+\* whose destination the node iterator never showed - a NULL or freed node - has index -1 in the dump)
+LinksJoinNodes(E) == /\ \A i \in DOMAIN E.links : E.links[i][1] + 1 \in DOMAIN E.nodes /\ E.links[i][2] + 1 \in DOMAIN E.nodes
+                     /\ E.start + 1 \in DOMAIN E.nodes /\ E.end + 1 \in DOMAIN E.nodes
+
 TLattice == /\ Ev.e = "Lattice"
             /\ IF Ev.null THEN lat' = NoLat
+               ELSE IF ~LinksJoinNodes(Ev) THEN Clause("links-join-nodes-of-the-lattice", FALSE) /\ lat' = NoLat
                ELSE LET LL == TLCEval(Lat0)
                     IN /\ (WHICH = "C11" => C11OK(LL)) /\ (WHICH = "C12" => C12LatOK(LL, Ev, ""))
                        /\ lat' = [ok |-> TRUE, L |-> LL]
